@@ -50,7 +50,7 @@ def merge(total, rep):
     total.setdefault("findings", []).extend(rep.get("findings", []))
     if len(total.setdefault("samples", [])) < 5:
         total["samples"].extend(rep.get("samples", [])[:5 - len(total["samples"])])
-    for k in ("crashes", "miri_reports", "tsan_reports"):
+    for k in ("crashes", "miri_reports", "san_reports"):
         if rep.get(k):
             total.setdefault(k, []).extend(rep[k])
 
@@ -95,7 +95,7 @@ def native_shard(binary, mode, seed, histories, chunk, threads, ops, workdir, ta
             if stderr_parser is not None:
                 blocks = stderr_parser(err)
                 if blocks:
-                    total.setdefault("tsan_reports", []).extend(blocks)
+                    total.setdefault("san_reports", []).extend(blocks)
             if reps:
                 merge(total, reps[-1])
                 break
@@ -165,6 +165,15 @@ def miri_kind(headline):
     return "ub-other"
 
 
+def coarse_frame(fn):
+    """strip generic instantiations so that one cause gives one signature"""
+    prev = None
+    while prev != fn:
+        prev = fn
+        fn = re.sub(r"(::)?<(?![^<>]* as )[^<>]*>", "", fn)
+    return fn
+
+
 def parse_miri(err):
     """-> (report blocks, unsupported blocks).  A block starts at a line `error: ...`."""
     reports, unsupported = [], []
@@ -181,7 +190,7 @@ def parse_miri(err):
         m = re.search(r"-->\s*(/repo/[^\s]+)", part)
         if first_repo is None and m:
             first_repo, first_at = m.group(1).rsplit("/", 1)[-1], m.group(1)
-        blk = {"headline": head[:300], "first_repo_frame": first_repo or "?", "at": first_at or "?"}
+        blk = {"headline": head[:300], "first_repo_frame": coarse_frame(first_repo or "?"), "at": first_at or "?"}
         if head.startswith("unsupported operation"):
             unsupported.append(blk)
         elif head.startswith("Undefined Behavior") or "leaked" in head or "deadlock" in head.lower() \
@@ -264,18 +273,42 @@ def parse_tsan(err):
         fn = next((f for f, at in frames if "/repo/" in at), None)
         if fn is None:
             fn = next((f for f, at in frames if "intern" in f), "?")
-        fn = re.sub(r"::h[0-9a-f]{16}$", "", fn)
-        blocks.append({"kind": m.group(1).strip().replace(" ", "-"), "first_repo_frame": fn, "text": part.strip()[:1500]})
+        fn = coarse_frame(re.sub(r"::h[0-9a-f]{16}$", "", fn))
+        blocks.append({"tool": "tsan", "kind": m.group(1).strip().replace(" ", "-"), "first_repo_frame": fn,
+                       "text": part.strip()[:1500]})
     return blocks
 
 
-def run_tsan(ctx, mode, per_shard, threads, ops, shards=NCPU):
-    binary = build("tsan")
-    env = {"TSAN_OPTIONS": "halt_on_error=0 exitcode=0 report_signal_unsafe=0 history_size=4"}
+def parse_asan(err):
+    blocks = []
+    for m in re.finditer(r"==\d+==ERROR: (AddressSanitizer|LeakSanitizer): ([^\n]*)", err):
+        part = err[m.start():m.start() + 6000]
+        frames = re.findall(r"#\d+ 0x[0-9a-f]+ in ([^\s]+) ([^\s]+)", part)
+        fn = next((f for f, at in frames if "/repo/" in at), "?")
+        fn = coarse_frame(re.sub(r"::h[0-9a-f]{16}$", "", fn))
+        kind = m.group(2).split(" on ")[0].split(":")[0].strip().replace(" ", "-")[:40] or "error"
+        blocks.append({"tool": "asan" if m.group(1) == "AddressSanitizer" else "lsan", "kind": kind,
+                       "first_repo_frame": fn, "text": part[:1500]})
+    return blocks
+
+
+def run_sanitized(ctx, mode, flavour, per_shard, threads, ops, shards=NCPU):
+    """flavour: tsan | asan | mca (native build with the crate's own memory_consistency_assertions cfg on)."""
+    if flavour == "mca":
+        tdir = runner.TARGET + "-mca"
+        runner.cargo_build([PKG], extra_env={
+            "RUSTFLAGS": f"--cfg {runner.GUARD} --cfg memory_consistency_assertions", "CARGO_TARGET_DIR": tdir})
+        binary, env, parser = os.path.join(tdir, "verif", PKG), None, None
+    elif flavour == "asan":
+        binary = build("asan")
+        env, parser = {"ASAN_OPTIONS": "detect_leaks=1:abort_on_error=0:exitcode=77"}, parse_asan
+    else:
+        binary = build("tsan")
+        env, parser = {"TSAN_OPTIONS": "halt_on_error=0 exitcode=0 report_signal_unsafe=0 history_size=4"}, parse_tsan
 
     def one(i):
-        return native_shard(binary, mode, subseed(ctx.seed, "intern-tsan", mode, i), per_shard, per_shard, threads, ops,
-                            ctx.work, f"tsan-{mode}-{i}", 0, False, env=env, stderr_parser=parse_tsan)
+        return native_shard(binary, mode, subseed(ctx.seed, "intern-" + flavour, mode, i), per_shard, per_shard, threads, ops,
+                            ctx.work, f"{flavour}-{mode}-{i}", 0, False, env=env, stderr_parser=parser)
 
     total = {}
     for rep in runner.run_shards(list(range(shards)), one):
@@ -303,9 +336,9 @@ def violations_for(pid, rep):
     for r in rep.get("miri_reports", []):
         out.append({"rule": "miri", "signature": f"{pid}/miri/{r['kind']}@{r['first_repo_frame']}",
                     "what": f"Miri: {r['headline'][:200]} at {r['at']}", "witness": r})
-    for r in rep.get("tsan_reports", []):
-        out.append({"rule": "tsan", "signature": f"{pid}/tsan/{r['kind']}@{r['first_repo_frame']}",
-                    "what": f"ThreadSanitizer: {r['kind']} in {r['first_repo_frame']}", "witness": r})
+    for r in rep.get("san_reports", []):
+        out.append({"rule": r["tool"], "signature": f"{pid}/{r['tool']}/{r['kind']}@{r['first_repo_frame']}",
+                    "what": f"{r['tool']}: {r['kind']} in {r['first_repo_frame']}", "witness": r})
     return out
 
 
